@@ -46,10 +46,32 @@ def one(what, xs):
         raise AnchorMissing('%s: expected exactly one candidate, found %d (%s)' % (what, len(xs), ', '.join(map(str, xs))[:300]))
     return xs[0]
 
+def resolve_item_channel(facts):
+    """The per-search item channel, by role: the search routing map is the struct field of type HashMap<RequestId, S<P>> with P the
+    item payload (SearchItem, Vec<Control>) - S is whatever sender the program uses for it (tokio's unbounded sender today; how the
+    alias that names it is spelled, or which mpsc flavour it resolves to, is not part of the role).  The type strings that other
+    rules compare with (T_ITEM_SENDER, T_SEARCHMAP, T_ITEM_RECEIVER) are re-derived from the analysed program on every run."""
+    global T_ITEM_SENDER, T_SEARCHMAP, T_ITEM_RECEIVER
+    pre, suf = 'std::collections::hash::map::HashMap<i32, ', '<%s>>' % T_ITEM_PAYLOAD
+    vals = set()
+    for it in facts.items.values():
+        if it.get('kind') == 'Struct':
+            for v in it['variants']:
+                for f in v['fields']:
+                    t = f['ty']
+                    if t.startswith(pre) and t.endswith(suf) and ',' not in t[len(pre):-len(suf)] and '<' not in t[len(pre):-len(suf)]:
+                        vals.add(t[len(pre):-1])
+    sender = one('item sender type (value type of the search routing map HashMap<RequestId, S<(SearchItem, Vec<Control>)>>)', vals)
+    T_ITEM_SENDER = sender
+    T_SEARCHMAP = pre + sender + '>'
+    head = sender[:-len('<%s>' % T_ITEM_PAYLOAD)]
+    T_ITEM_RECEIVER = (head[:-len('Sender')] + 'Receiver' if head.endswith('Sender') else head) + '<%s>' % T_ITEM_PAYLOAD
+
 class Conn:
     """Resolved anchors of the driver / handle pair."""
     def __init__(self, facts):
         self.facts = facts
+        resolve_item_channel(facts)
         # the driver struct: has both routing maps
         rm = struct_fields_of_type(facts, T_RESULTMAP)
         sm = struct_fields_of_type(facts, T_SEARCHMAP)
@@ -114,9 +136,28 @@ class Conn:
             return True
         return hirq.strip_refs(e.get('ty') or '') == T_IDSET
 
-    def is_counter_place(self, e):
+    def is_counter_place(self, e, B=None, depth=0):
+        """e denotes the ID counter: component 0 of the locked ID table - `<guard>.0`, `(*guard).0`, `p.0` with p a reference to
+        the (RequestId, HashSet<RequestId>) pair - or, when the body index B is given, a local that a pattern or a plain `let`
+        bound to that place (`let (last, set) = &mut *guard;`, `let r = &mut guard.0;`): an alias is the place it names."""
         e = peel(e)
-        return e['k'] == 'Field' and e['name'] == '0' and is_idguard(peel(e['e']).get('ty'))
+        if e['k'] == 'Field' and e['name'] == '0':
+            bt = hirq.strip_refs(peel(e['e']).get('ty') or '')
+            return is_idguard(bt) or bt == T_IDPAIR
+        if B is not None and depth < 8 and e['k'] == 'Path' and e.get('res') == 'local' and (e.get('ty') or '').startswith('&'):
+            d = B.defs.get(e['bind'])
+            if d is None or d.get('src') is None:
+                return False
+            src = peel(d['src'])
+            st = hirq.strip_refs(src.get('ty') or '')
+            pr = tuple(p for p in d['proj'])
+            if pr == (('tup', 0),) and (is_idguard(st) or st == T_IDPAIR):
+                return True
+            if pr == ():
+                return self.is_counter_place(src, B, depth + 1)
+            if pr and pr[-1] == ('tup', 0) and hirq.strip_refs(e.get('ty') or '') == 'i32' and T_IDPAIR in st:
+                return True         # taken out of a larger pattern that contains the pair: read as the counter (fails closed)
+        return False
 
     def is_map_place(self, e, which):
         """e is `<driver>.resultmap` / `.searchmap` (by field type)."""
